@@ -299,6 +299,15 @@ def run_als(case, ctx):
         ctx.event('weights-form:' + str(w.dtype) + (':constant'
             if form == 4 else ''))
     Y0 = gen.cores(rng, n, r, 'normal')
+    if rng.random() < 0.12:
+        # large data against a tiny regularisation (cores ~1e2..1e3, values
+        # ~1e8): the ridge term is below the rounding of the Gram matrix and
+        # under-determined slices make it numerically singular
+        sc0 = float(10.0 ** rng.uniform(2, 3))
+        Y0 = [G * sc0 for G in Y0]
+        y = y * 1e8 / max(1e-300, float(np.abs(y).max()))
+        lamb = 1e-3
+        ctx.event('large-scale-tiny-regularisation')
     nswp = int(rng.integers(1, 6))
     traj = []
 
@@ -317,8 +326,14 @@ def run_als(case, ctx):
         f'{info.get("stop")!r}; callback calls {len(traj)}; nswp {nswp}')
     # (b) descent
     js = [J_als(Y0, I, y, lamb, w)] + [J_als(T, I, y, lamb, w) for T in traj]
+    # (the library works in double precision: predictions of size |pred| are
+    # known to eps |pred|, which moves the objective by up to
+    # eps * sum w (|pred| + |y|)^2 - matters for large, almost fitted data)
+    pr_ = np.abs(np.asarray(ref.dense_ld(traj[-1] if traj else Y0),
+        dtype=float)[tuple(I.T)]) + np.abs(y)
+    jtol = 1e3 * EPS * float(np.sum(pr_ * pr_ if w is None else w * pr_ * pr_))
     bad = [(s, a, b) for s, (a, b) in enumerate(zip(js, js[1:]))
-        if not b <= a * (1 + 1e-10)]
+        if not b <= a * (1 + 1e-10) + jtol]
     ctx.check('descent', not bad, f'objective increased between sweeps: {bad[:2]}',
         trajectory=js)
     # (c) independent optimality of the last-updated core (core 1)
